@@ -139,4 +139,15 @@ CHECKS["C06"] = {
             "Not counted: time spent in a garbage collection triggered by a step; Rust stack use per native frame is bounded by a 1 MB budget measured by stack addresses, not proved.",
     "design_ref": "DESIGN.md §4 C06",
 }
+CHECKS["C04"] = {
+    "technique": "Lean 4 proof over M-Emit (tsrun's lowering of enums/namespaces/parameter properties equals the TypeScript emit for every declaration) + correspondence of the model with the real compiler on generated declarations + TypeScript-vs-emit differential on tsrun (node as secondary reference when present)",
+    "text": "lower_eq_emit (for every well-formed member list and every starting object - merged declarations - the lowered enum builds exactly the object of the emit), forward_lookup / reverse_last_writer / auto_increment "
+            "(E.X is the last member named X, E[n] the last member with value n, a member without initialiser is its predecessor plus one), ns_block_alias_eq_emit / ns_merged_alias_eq_emit / ns_export_is_property "
+            "(alias bindings compute the namespace object of the emit for every body and every sequence of merged blocks; exported variables are live), ctor_param_properties are Lean theorems. The model's lowered object is compared "
+            "with the object the real compiler builds for every generated enum and pure namespace; every generated TypeScript program (enums, namespaces, parameter properties, abstract classes; top level or in a function) must behave "
+            "like its JavaScript emit on tsrun and on the reference engine.",
+    "note": "The emit text is produced by the check's generator; fractional/NaN enum values, functions inside namespaces, derived-class constructor order and abstract members are covered by the differential only. "
+            "Object key order is not compared (a C01 matter).",
+    "design_ref": "DESIGN.md §4 C04",
+}
 NOT_YET = {}
